@@ -456,7 +456,8 @@ struct BatteryFail {
 }
 /// every query through every read strategy must return exactly the reference rows
 fn battery(e: &RelationalEngine, t: &str, m: &Table, max_id: u64, cfg: u8, level: u8, evals: &mut u64) -> Option<BatteryFail> {
-    let probe = e.begin_transaction();
+    // the reading transaction is begun through the manager (TransactionManager::begin is what begin_transaction calls)
+    let probe = e.tx_manager().begin();
     let mut fail = None;
     'outer: for q in battery_queries(max_id, cfg) {
         let exp: Vec<u64> = m.iter().filter(|(id, r)| q.eval(**id, r)).map(|(id, _)| *id).collect();
@@ -957,13 +958,14 @@ fn run_case_in(e: &RelationalEngine, tn: &str, case: &Case, level: u8, selftest:
     // indexed reads
     let phase = if any_rollback { "after-rollback" } else { "after-commit" };
     if !tainted {
-        if let Some(f) = battery(e, tn, &m.rows, m.next_id, case.cfg, level, &mut out.evals) {
-            fail!(format!("c09:query-{phase}:{}", f.sig), format!("after [{all}] (indexes: {}): {}", cfg_text(case.cfg), f.msg));
-        }
         if id_hash(case.cfg) || id_ordered(case.cfg) {
+            // counted when the comparison is made, whatever its result
             out.info.id_index_cases_rolled_back_delete_then_queried += u64::from(rb_del);
             out.info.id_index_cases_rolled_back_insert_then_queried += u64::from(rb_ins);
             out.info.id_index_cases_committed_delete_or_insert_then_queried += u64::from(co_any);
+        }
+        if let Some(f) = battery(e, tn, &m.rows, m.next_id, case.cfg, level, &mut out.evals) {
+            fail!(format!("c09:query-{phase}:{}", f.sig), format!("after [{all}] (indexes: {}): {}", cfg_text(case.cfg), f.msg));
         }
     }
     // finished transactions are refused by every tx_* call and change nothing
@@ -984,8 +986,8 @@ fn run_case_in(e: &RelationalEngine, tn: &str, case: &Case, level: u8, selftest:
         if let Some((name, _)) = calls.iter().find(|(_, refused)| !refused) {
             fail!(format!("c09:finished-tx:{name}-accepted"), format!("after [{all}]: {name} on the finished tx{k} returned Ok"));
         }
-        if e.is_transaction_active(id) {
-            fail!("c09:finished-tx:reported-active".to_string(), format!("after [{all}]: is_transaction_active(tx{k}) is true"));
+        if e.is_transaction_active(id) || e.tx_manager().is_active(id) || e.tx_manager().get(id) == Some(relational_engine::TxPhase::Active) {
+            fail!("c09:finished-tx:reported-active".to_string(), format!("after [{all}]: is_transaction_active(tx{k}) = {}, tx_manager().get(tx{k}) = {:?}", e.is_transaction_active(id), e.tx_manager().get(id)));
         }
     }
     match raw(e, tn) {
